@@ -74,10 +74,10 @@ for name in ("base.json", "extra.json"):
         for s in prg:
             t = tw.visit(s)
             out.append(str(t))
-            if s.ast_type == ASTType.Rule and len(s.body) >= 1 and len(s.body) <= 6:
+            if s.ast_type == ASTType.Rule and len(s.body) >= 1 and len(s.body) <= 4:
                 if s.head.ast_type == ASTType.Literal:
                     joined.append(str(s.update(body=list(s.body) + list(t.body))))
-            elif s.ast_type == ASTType.Minimize and 1 <= len(s.body) <= 6:
+            elif s.ast_type == ASTType.Minimize and 1 <= len(s.body) <= 4:
                 joined.append(str(s.update(terms=list(s.terms) + list(t.terms), body=list(s.body) + list(t.body))))
         if not joined:
             continue
